@@ -928,6 +928,9 @@ def resolve_bool(v, op, depth=0, at=None):
     nonconst = [d for d in ds if not (d[0] == "s" and d[3]["rv"]["r"] == "use" and d[3]["rv"]["op"]["k"] == "const")]
     if len(nonconst) != 1 or depth > 6:
         if len(ds) >= 1 and not nonconst:
+            if v.var_name(l) is not None:
+                # a user-declared bool set from constants on different paths (`let mut ok = false; .. ok = true;`)
+                return Cond("place", pl=pl, neg=False, at=at)
             return Cond("const", val=None)
         return Cond("place", pl=pl, neg=False, at=at)
     d = nonconst[0]
